@@ -29,7 +29,7 @@ Inductive wf_err : Type :=
 | ERefModeMismatch  (* "mode of label '..' does not match the mode" of its definition *)
 | EIllegalShift     (* "cannot be upshifted / downshifted to" *)
 | ENotContractive   (* "session type definition for .. is not contractive" *)
-| EDefModeMismatch. (* only in the REPAIRED check below (fixes/F20_defmode.patch) *)
+| EDefModeMismatch. (* "mode of type definition '..' does not match the mode of its body" (fix of F23) *)
 
 Definition is_invalid (m : mode) : bool := match m with Invalid _ => true | _ => false end.
 
@@ -135,11 +135,15 @@ Fixpoint dup_def (l : tenv) (seen : list string) : bool :=
   | d :: r => if str_mem (td_name d) seen then true else dup_def r (td_name d :: seen)
   end.
 
-(* second loop *)
+(* second loop: well-formedness of the body, then (fix of F23) the mode recorded for the definition
+   must be the mode of its body.  `j.Modality != nil` always holds after ParseString (see above). *)
+Definition defmode_check (d : tdef) : option wf_err :=
+  if negb (mode_eqb (mode_of (td_body d)) (td_mode d)) then Some EDefModeMismatch else None.
+
 Fixpoint wf_all (D : tenv) (l : tenv) : option wf_err :=
   match l with
   | [] => None
-  | d :: r => orelse (check_wf D (td_body d)) (wf_all D r)
+  | d :: r => orelse (check_wf D (td_body d)) (orelse (defmode_check d) (wf_all D r))
   end.
 
 (* third loop: contractivity, then well-formedness once more *)
@@ -158,26 +162,6 @@ Fixpoint contractive_all (D : tenv) (l : tenv) : outcome (option wf_err) :=
 Definition sanity_typedefs (D : tenv) : outcome (option wf_err) :=
   if dup_def D [] then Ok (Some EDupDef)
   else match wf_all D D with
-       | Some e => Ok (Some e)
-       | None => contractive_all D D
-       end.
-
-(* ---------- the REPAIRED SanityChecksTypeDefinitions (finding F20, fixes/F20_defmode.patch) ----------
-   NOT the code as it is now: the second loop additionally rejects a definition whose recorded mode
-   is not the mode of its body.  Kept beside the faithful model so that the positive theorems of
-   C10/C16 can be stated for the repaired code; the correspondence suites run `sanity_typedefs`. *)
-Fixpoint wf_all_fixed (D : tenv) (l : tenv) : option wf_err :=
-  match l with
-  | [] => None
-  | d :: r =>
-    orelse (check_wf D (td_body d))
-      (orelse (if negb (mode_eqb (mode_of (td_body d)) (td_mode d)) then Some EDefModeMismatch else None)
-              (wf_all_fixed D r))
-  end.
-
-Definition sanity_typedefs_fixed (D : tenv) : outcome (option wf_err) :=
-  if dup_def D [] then Ok (Some EDupDef)
-  else match wf_all_fixed D D with
        | Some e => Ok (Some e)
        | None => contractive_all D D
        end.
